@@ -555,6 +555,9 @@ func (t *tr) call(ins ssa.Instruction, cc *ssa.CallCommon, R string, heaps map[s
 	t.callCount[name]++
 	n := t.callCount[name]
 	if fs == nil {
+		if callee != nil && t.inlineCall(ins, callee, args, R, heaps, xval, flat) {
+			return
+		}
 		t.unknownCall(name, callee, cc, R, heaps, results, resTypes)
 		return
 	}
@@ -921,4 +924,92 @@ func (t *tr) copyBuiltin(ins ssa.Instruction, x ssa.Value, args []ssa.Value, R s
 		t.assume(R, fmt.Sprintf("(forall ((y Int)) (! (=> (not (and (<= %s y) (< y (+ %s %s)))) (= (select (select (select %s %s) %s) y) (select (select (select %s %s) %s) y))) :pattern ((select (select (select %s %s) %s) y))))",
 			dOff, dOff, cells, nw, dTyp, dRef, old, dTyp, dRef, nw, dTyp, dRef))
 	}
+}
+
+// inlineCall: an hc function without contract is not a black box: its body is translated in place (bounded depth and
+// size, no recursion, no closures with captured variables). A contract always takes precedence; this only keeps small
+// helpers (and harmless extract-function refactorings) from turning into a havoc of the whole heap.
+func (t *tr) inlineCall(ins ssa.Instruction, callee *ssa.Function, args [][]string, R string, heaps map[string]string, xval ssa.Value, resultConsts []string) bool {
+	if !t.isHC(callee) || len(callee.Blocks) == 0 || len(callee.Blocks) > 60 || len(callee.FreeVars) > 0 || t.depth >= 3 {
+		return false
+	}
+	for a := t; a != nil; a = a.parent {
+		if a.fn == callee {
+			return false
+		}
+	}
+	for _, b := range callee.Blocks {
+		for _, i := range b.Instrs {
+			switch i.(type) {
+			case *ssa.Go, *ssa.Select, *ssa.Send:
+				return false
+			}
+		}
+	}
+	root := t
+	for root.parent != nil {
+		root = root.parent
+	}
+	root.inlineN++
+	ct := newTr(t.eng, callee)
+	ct.own = nil
+	ct.parent = t
+	ct.depth = t.depth + 1
+	ct.pfx = fmt.Sprintf("i%d_", root.inlineN)
+	ct.heapN, ct.heap0, ct.heapSorts = t.heapN, t.heap0, t.heapSorts
+	ct.nfresh = t.nfresh
+	ct.ptrs = append([]string{}, t.ptrs...)
+	ct.entryReach = R
+	ct.entryHeapsInl = heaps
+	ct.unknownCallees, ct.trustedUsed, ct.contractsUsed, ct.abstracted = t.unknownCallees, t.trustedUsed, t.contractsUsed, t.abstracted
+	ct.specFacts = t.specFacts
+	ct.oblNames = t.oblNames
+	if len(args) != len(callee.Params) {
+		return false
+	}
+	for i, p := range callee.Params {
+		ct.val[p] = args[i]
+	}
+	if err := ct.run(); err != nil || len(ct.fatal) > 0 {
+		t.abstractf("could not inline %s (%v %v): treated as unknown callee", shortName(callee.String()), err, ct.fatal)
+		t.nfresh = ct.nfresh
+		return false
+	}
+	t.nfresh = ct.nfresh
+	t.decls.WriteString(ct.decls.String())
+	t.out.WriteString(ct.out.String())
+	t.ptrs = ct.ptrs
+	t.allocs = append(t.allocs, ct.allocs...)
+	for a, e := range ct.escapes {
+		t.escapes[a] = e
+	}
+	t.abstractf("callee %s has no contract: body inlined", shortName(callee.String()))
+	if len(ct.retInfo) == 0 {
+		// never returns (panics on every path): the rest of this block is unreachable
+		t.assume("", fmt.Sprintf("(not %s)", R))
+		return true
+	}
+	// results: the merged return values; heaps: merged over the return sites
+	for k, rc := range resultConsts {
+		e := ct.retInfo[len(ct.retInfo)-1].vals[k]
+		for i := len(ct.retInfo) - 2; i >= 0; i-- {
+			e = fmt.Sprintf("(ite %s %s %s)", ct.retInfo[i].R, ct.retInfo[i].vals[k], e)
+		}
+		t.assume(R, fmt.Sprintf("(= %s %s)", rc, e))
+	}
+	var edges []string
+	var hs []map[string]string
+	for _, ri := range ct.retInfo {
+		edges = append(edges, ri.R)
+		hs = append(hs, ri.heaps)
+	}
+	merged := t.mergeHeaps(edges, hs)
+	for h, v := range merged {
+		heaps[h] = v
+	}
+	// the call returns only if some return site was reached
+	if len(edges) > 0 {
+		t.assume(R, "(or "+strings.Join(edges, " ")+")")
+	}
+	return true
 }
